@@ -363,52 +363,128 @@ def render_value(v, field_name: str) -> str:
     return f" = {field_name}({', '.join(args)})"
 
 
-def render(case: dict) -> str:
-    imp, deco_name, field_name, kw_name, iv_name = IMPORTS[case["imp"]]
-    cv_imp, cv_name = CLASSVAR[case["cv"]]
+def render_header(case: dict) -> list[str]:
+    imp = IMPORTS[case["imp"]][0]
+    cv_imp = CLASSVAR[case["cv"]][0]
     lines = []
     if case["future"]:
         lines.append("from __future__ import annotations")
-    lines += [imp, cv_imp, ""]
-    for i, cls in enumerate(case["classes"]):
-        d = cls["deco"]
-        if d is not None:
-            if not d["call"]:
-                lines.append(f"@{deco_name}")
-            else:
-                args = []
-                if d["init"] is not None:
-                    args.append(f"init={bool(d['init'])}")
-                if d["kw_only"] is not None:
-                    args.append(f"kw_only={bool(d['kw_only'])}")
-                if d["extra"]:
-                    args.append(d["extra"])
-                lines.append(f"@{deco_name}({', '.join(args)})")
-        bases = ", ".join(f"C{b}" for b in cls["bases"])
-        lines.append(f"class C{i}({bases}):" if bases else f"class C{i}:")
-        if not cls["body"]:
-            lines.append("    pass")
-        for item in cls["body"]:
-            t = item["t"]
-            if t == "f":
-                lines.append(f"    {item['n']}: {TYPES[item['ty']]}{render_value(item['v'], field_name)}")
-            elif t == "iv":
-                lines.append(f"    {item['n']}: {iv_name}[int]{render_value(item['v'], field_name)}")
-            elif t == "cv":
-                ann = cv_name if item["bare"] else f"{cv_name}[int]"
-                lines.append(f"    {item['n']}: {ann}{' = 0' if item['v'] else ''}")
-            elif t == "kw":
-                lines.append(f"    _: {kw_name}")
-            elif t == "u":
-                lines.append(f"    {item['n']} = 0")
-            elif t == "prop":
-                lines += ["    @property", f"    def {item['n']}(self): ..."]
-            elif t == "meth":
-                lines.append(f"    def {item['n']}(self): ...")
-            elif t == "init":
-                lines.append(f"    def __init__({INIT_SIGS[item['sig']]}): ...")
-        lines.append("")
+    lines += [imp, cv_imp]
+    return lines
+
+
+def render_class(case: dict, i: int) -> list[str]:
+    _, deco_name, field_name, kw_name, iv_name = IMPORTS[case["imp"]]
+    cv_name = CLASSVAR[case["cv"]][1]
+    cls = case["classes"][i]
+    lines = []
+    d = cls["deco"]
+    if d is not None:
+        if not d["call"]:
+            lines.append(f"@{deco_name}")
+        else:
+            args = []
+            if d["init"] is not None:
+                args.append(f"init={bool(d['init'])}")
+            if d["kw_only"] is not None:
+                args.append(f"kw_only={bool(d['kw_only'])}")
+            if d["extra"]:
+                args.append(d["extra"])
+            lines.append(f"@{deco_name}({', '.join(args)})")
+    bases = ", ".join(f"C{b}" for b in cls["bases"])
+    lines.append(f"class C{i}({bases}):" if bases else f"class C{i}:")
+    if not cls["body"]:
+        lines.append("    pass")
+    for item in cls["body"]:
+        t = item["t"]
+        if t == "f":
+            lines.append(f"    {item['n']}: {TYPES[item['ty']]}{render_value(item['v'], field_name)}")
+        elif t == "iv":
+            lines.append(f"    {item['n']}: {iv_name}[int]{render_value(item['v'], field_name)}")
+        elif t == "cv":
+            ann = cv_name if item["bare"] else f"{cv_name}[int]"
+            lines.append(f"    {item['n']}: {ann}{' = 0' if item['v'] else ''}")
+        elif t == "kw":
+            lines.append(f"    _: {kw_name}")
+        elif t == "u":
+            lines.append(f"    {item['n']} = 0")
+        elif t == "prop":
+            lines += ["    @property", f"    def {item['n']}(self): ..."]
+        elif t == "meth":
+            lines.append(f"    def {item['n']}(self): ...")
+        elif t == "init":
+            lines.append(f"    def __init__({INIT_SIGS[item['sig']]}): ...")
+    lines.append("")
+    return lines
+
+
+def render(case: dict) -> str:
+    lines = [*render_header(case), ""]
+    for i in range(len(case["classes"])):
+        lines += render_class(case, i)
     return "\n".join(lines)
+
+
+# ----------------------------------------------------------------------------- packages: the classes of a case spread over modules
+PKG_MODULES = ("__init__", "m1", "m2")
+
+
+@st.composite
+def package_cases(draw, avoid_inherited_value: bool = False):
+    """A "dc" case of 2-4 classes whose classes live in up to three modules of one package (`__init__`, `m1`, `m2`).
+    Each class gets a rank >= the ranks of its bases and the ranks are mapped to the modules by a drawn permutation, so a
+    module only imports from modules of lower rank: every direction CPython can import (package -> submodule, submodule ->
+    package, submodule -> sibling), never a cycle. "rel" chooses relative or absolute import statements per module."""
+    dc = draw(cases(avoid_inherited_value=avoid_inherited_value).filter(lambda c: len(c["classes"]) >= 2))
+    if draw(_i01):
+        # more undecorated descendants (the dataclass label must reach them through any number of undecorated parents,
+        # whatever the order in which the modules are traversed)
+        changed = False
+        for cls in dc["classes"]:
+            if cls["bases"] and cls["deco"] is not None and draw(_i01):
+                cls["deco"] = None
+                changed = True
+        if changed:
+            dc = normalize(dc, avoid_inherited_value)
+    ranks: list[int] = []
+    for cls in dc["classes"]:
+        lo = max((ranks[b] for b in cls["bases"]), default=0)
+        ranks.append(draw(st.integers(lo, 2)))
+    perm = list(draw(st.permutations([0, 1, 2])))
+    return {"kind": "dcpkg", "dc": dc, "ranks": ranks, "perm": perm, "rel": draw(st.integers(0, 7))}
+
+
+def package_module_of(case: dict, i: int) -> str:
+    return PKG_MODULES[case["perm"][case["ranks"][i]]]
+
+
+def render_package(case: dict, pkg: str) -> dict[str, str]:
+    """{module name: source}; `__init__` always exists."""
+    dc = case["dc"]
+    by_mod: dict[str, list[int]] = {"__init__": []}
+    for i in range(len(dc["classes"])):
+        by_mod.setdefault(package_module_of(case, i), []).append(i)
+    out = {}
+    for mod, idxs in by_mod.items():
+        lines = render_header(dc)
+        relative = bool((case["rel"] >> PKG_MODULES.index(mod)) & 1)
+        needed: dict[str, list[str]] = {}
+        for i in idxs:
+            for b in dc["classes"][i]["bases"]:
+                src = package_module_of(case, b)
+                if src != mod and f"C{b}" not in needed.setdefault(src, []):
+                    needed[src].append(f"C{b}")
+        for src, names in needed.items():
+            if relative:
+                target = "." if src == "__init__" else f".{src}"
+            else:
+                target = pkg if src == "__init__" else f"{pkg}.{src}"
+            lines.append(f"from {target} import {', '.join(names)}")
+        lines.append("")
+        for i in idxs:
+            lines += render_class(dc, i)
+        out[mod] = "\n".join(lines)
+    return out
 
 
 # ----------------------------------------------------------------------------- statistics
